@@ -26,8 +26,8 @@ real: Exc makes the statement raise, Kill sends SIGKILL to the parked child,
 ForkFail makes os.fork raise.
 
 This module is executed as a slim server process (python -m
-vf.props.c16_step): it reads a JSON job list on stdin and writes the verdicts
-on stdout.  It must not import the rest of the harness (fork cost).
+vf.props.c16_step JOBS.json RESULT.json).  It must not import the rest of the
+harness (fork cost).
 """
 
 import json
@@ -550,11 +550,13 @@ def main():
                 pass
     gc.collect()
     gc.freeze()                 # forked processes do not touch (copy) the pages of existing objects
-    jobs = json.load(sys.stdin)
+    with open(sys.argv[1]) as f:
+        jobs = json.load(f)
     out = []
     for cfg, beh in jobs:
         out.append(replay(cfg, beh))
-    json.dump(out, sys.stdout)
+    with open(sys.argv[2], 'w') as f:
+        json.dump(out, f)
 
 
 if __name__ == '__main__':
